@@ -61,7 +61,17 @@ func rV2T(v value) rtype {
 
 // Given a reflect.Value, returns the underlying interpreter value.
 func rV2V(v value) value {
-	return v.(structure)[1]
+	x := v.(structure)[1]
+	if a, ok := x.(rvAddr); ok {
+		return load(a.t, a.p)
+	}
+	return x
+}
+
+// rvAddr is the payload of an addressable reflect.Value (obtained through Elem/Indirect of a pointer).
+type rvAddr struct {
+	p *value
+	t types.Type
 }
 
 // makeReflectType boxes up an rtype in a reflect.Type interface.
@@ -398,11 +408,11 @@ func ext۰reflect۰Value۰Elem(fr *frame, args []value) value {
 	case iface:
 		return makeReflectValue(x.t, x.v)
 	case *value:
-		var v value
-		if x != nil {
-			v = *x
+		et := rV2T(args[0]).t.Underlying().(*types.Pointer).Elem()
+		if x == nil {
+			return makeReflectValue(et, nil)
 		}
-		return makeReflectValue(rV2T(args[0]).t.Underlying().(*types.Pointer).Elem(), v)
+		return makeReflectValue(et, rvAddr{x, et})
 	default:
 		panic(fmt.Sprintf("reflect.(Value).Elem(%T)", x))
 	}
@@ -479,8 +489,27 @@ func ext۰reflect۰Value۰IsValid(fr *frame, args []value) value {
 }
 
 func ext۰reflect۰Value۰Set(fr *frame, args []value) value {
-	// TODO(adonovan): implement.
+	a, ok := args[0].(structure)[1].(rvAddr)
+	if !ok {
+		panic(runtimeError("reflect: reflect.Value.Set using unaddressable value"))
+	}
+	if args[1].(structure)[0].(rtype).t == nil {
+		panic(runtimeError("reflect: call of reflect.Value.Set on zero Value"))
+	}
+	store(a.t, a.p, cloneAgg(rV2V(args[1])))
 	return nil
+}
+
+func ext۰reflect۰Indirect(fr *frame, args []value) value {
+	if _, isPtr := rV2T(args[0]).t.Underlying().(*types.Pointer); isPtr {
+		return ext۰reflect۰Value۰Elem(fr, args)
+	}
+	return args[0]
+}
+
+func ext۰reflect۰Value۰CanSet(fr *frame, args []value) value {
+	_, ok := args[0].(structure)[1].(rvAddr)
+	return ok
 }
 
 func ext۰reflect۰valueInterface(fr *frame, args []value) value {
